@@ -72,10 +72,12 @@ def replay(witness, res):
 # ---- mechanism strings: one per root cause ---------------------------------------------------------------------------
 def mechanism(pos, family):
     pc, where = pos.split(":", 1)
-    if pc == "ma" and where.startswith("durative-"):
-        return "missing:ma:durative-action"  # nothing inside a durative action of an agent is inspected
     if family == "PARAMETERS":
-        return f"missing:{pc}:parameter-kinds"
+        return f"missing:{pc}:parameter-kinds"  # parameter kinds of fluents / actions (instantaneous or durative)
+    if pc == "ma" and family == "ASSIGNMENTS":
+        return "missing:ma:action-effect-value:ASSIGNMENTS"  # effect values are never inspected (any action class)
+    if pc == "ma" and where.startswith("durative-"):
+        return "missing:ma:durative-action"  # conditions / effects / duration of an agent's durative action are not inspected
     if pc == "htn" and where in ("method-param", "task-param", "task-network-variable"):
         return f"missing:htn:task-method-or-network-parameter:{family}"  # parameter types of tasks / methods / task networks
     return f"missing:{pos}:{family}"
